@@ -1220,4 +1220,59 @@ theorem zipAccountI_sound (sizes : List Int) : ∀ (run limit : Int), 0 ≤ run 
       · have := hw.2 (by omega)
         omega
 
+/-! ## bstrUnmarshal -/
+
+/-- the matches are ordered, seven bytes long and inside the string -/
+def MatchChain (len : Nat) : List (Nat × Nat) → Nat → Prop
+  | [], _ => True
+  | (m0, m1) :: rest, cursor => cursor ≤ m0 ∧ m1 = m0 + 7 ∧ m1 ≤ len ∧ MatchChain len rest m1
+
+theorem MatchChain_mono (len : Nat) (ms : List (Nat × Nat)) : ∀ (a b : Nat), a ≤ b → MatchChain len ms b → MatchChain len ms a := by
+  cases ms with
+  | nil => intro _ _ _ _; trivial
+  | cons m rest =>
+    obtain ⟨m0, m1⟩ := m
+    intro a b hab h
+    exact ⟨by have := h.1; omega, h.2.1, h.2.2.1, h.2.2.2⟩
+
+theorem bstrMatches_chain (s : List Char) : ∀ (fuel i : Nat), MatchChain s.length (bstrMatches s fuel i) i := by
+  intro fuel
+  induction fuel with
+  | zero => intro i; trivial
+  | succ f ih =>
+    intro i
+    unfold bstrMatches
+    split
+    · split
+      · rename_i he
+        have hl : i + 7 ≤ s.length := by
+          simp only [escAt, Bool.and_eq_true, decide_eq_true_eq] at he
+          exact he.1.1.1.1.1.1.1
+        exact ⟨Nat.le_refl _, rfl, hl, ih (i + 7)⟩
+      · exact MatchChain_mono _ _ i (i + 1) (by omega) (ih (i + 1))
+    · trivial
+
+theorem bstrSegs_no_panic (len : Nat) (ms : List (Nat × Nat)) : ∀ (cursor : Nat), cursor ≤ len →
+    MatchChain len ms cursor → (bstrSegs len ms cursor).isPanic = false := by
+  induction ms with
+  | nil =>
+    intro cursor hc _
+    unfold bstrSegs
+    split
+    · have : sliceOK len cursor len = true := by simp [sliceOK]; omega
+      rw [this]; rfl
+    · rfl
+  | cons m rest ih =>
+    obtain ⟨m0, m1⟩ := m
+    intro cursor hc h
+    obtain ⟨h1, h2, h3, h4⟩ := h
+    unfold bstrSegs
+    have a : sliceOK len cursor m0 = true := by simp [sliceOK]; omega
+    have b : sliceOK len m0 m1 = true := by simp [sliceOK]; omega
+    have c : sliceOK len (m0 + 2) (m1 - 1) = true := by simp [sliceOK]; omega
+    rw [a, b, c]
+    simp only [not_true_eq_false, if_false]
+    apply bind_no_panic _ _ (ih m1 h3 h4)
+    intro t _; rfl
+
 end XlModel.Decode
